@@ -36,9 +36,9 @@ def fixed(id, prop, commit, what, case):
     F.append({"id": id, "property": prop, "status": "fixed", "commit": commit, "what": what,
               "line": f"fixed: property={prop} {commit} {what}", "case": case})
 
-def open_(id, prop, what, case, patterns=None, sigs=None, avoid=None):
+def open_(id, prop, what, case, patterns=None, sigs=None, avoid=None, attempts=None):
     F.append({"id": id, "property": prop, "status": "open", "what": what, "case": case,
-              "patterns": patterns or [], "sigs": sigs or [], "avoid": avoid})
+              "patterns": patterns or [], "sigs": sigs or [], "avoid": avoid, "attempts": attempts})
 
 # ---------------------------------------------------------------- C01
 fixed("FX-C01-input-style", "C01", "8ef63d3",
@@ -177,6 +177,11 @@ open_("F-C04-array-edge", "C04",
       shrunk("F-C04-array"),
       patterns=[{"check": "failed-state", "keys": ["ArrayFormula"], "cats": ANYCELL}],
       avoid=CLEAN_HIST)
+open_("F-C04-insert-array-edge", "C04",
+      "insert_columns / insert_rows refused with 'Incorrect row or column' when a CSE array formula sits in the last columns/rows has already moved some of its cells (which ones depends on the iteration order of the sheet's row map, so the manifestation varies from process to process): seen by vp check 2 as InsertCols(0,4,1) over an array anchored at R5C16383",
+      hist("C04", 1, [{"ArrayFormula": [0, 5, 16383, 1, 2, "=0"]}, {"InsertCols": [0, 4, 1]}]),
+      patterns=[{"check": "failed-state", "keys": ["InsertCols", "InsertRows"], "cats": ANYCELL}],
+      avoid=CLEAN_HIST, attempts=12)
 open_("F-C04-hidden-edge", "C04",
       "hiding the last column/row hides it and then fails while looking for the next visible one past the grid",
       shrunk("F-C04-hidden-edge"),
